@@ -31,7 +31,7 @@ CLAIMED = {
             SCRIPT_NOTE + "Register API: C05_api_wrapped is proved for every register; every register of every distinct product list is read with flags 1/2/4 and trailing payloads through Read*Register and judged (class, wrapped with the name, total frames). ", "DESIGN.md 4/C05"),
     "C06": ("Coq theorems (no call panics for any state/script/fault schedule; at most eight writes; one write per exchange) + correspondence with a fault injected at every I/O index + read budget/watchdog",
             "C06_total: for every logger configuration, driver state, device script and fault schedule every driver call returns a value or an error: it neither panics nor runs out of the supplied fuel (the modelled bufio loop, async-skipping loop and retry loop terminate; measure-based proof); no driver call panics; response parsing is total; at most eight Write calls per register access. The implementation is run with a write fault at every write index, read error/timeout/empty read at every byte position, every prefix of every valid answer, every response nibble with short payloads, random streams; reads after end of data are bounded (1 per attempt, 100 in no-progress mode) and a read budget plus a watchdog turn a hang into a reported violation.",
-            SCRIPT_NOTE + "Blocking of a real port is runtime behaviour: the theorems bound the I/O calls of the model, the harness bounds those of the code.",
+            SCRIPT_NOTE + "C06_reads_at_end: every driver call adds at most 8 Read calls answered from the exhausted port (8*100 for a port answering (0, nil) forever), for every state, script and fault schedule; the same bound is judged on the implementation. Blocking of a real port is runtime behaviour: the theorems bound the I/O calls of the model, the harness bounds those of the code.",
             "DESIGN.md 4/C06"),
     "C18": ("Coq theorems: simulation between any two logger configurations for every call and history; one line per typed call; replay of the logged pair through a lookup port (via the C04 refinement) + implementation run under all four configurations + I/O log replay + file logger on real files",
             "Proved: for any two logger configurations and states agreeing on reader and port, every call (and every history) returns the same result and leaves the same reader/port state; without an I/O logger no line is emitted. Every generated case is run on the real driver under all four configurations and the observations must be identical; the I/O lines (unquoted) must equal the model's (tx = frames written, rx = bytes consumed), and each typed call completed in one exchange is replayed through a lookup port. The file logger is run on real files (pre-existing content, lines longer than the 4096-byte buffer).",
